@@ -33,6 +33,7 @@ type c12cell struct {
 // the sixth cell: a first load driven by the UPDATER (the first handshake met an unreachable origin; the next refresh
 // cycle loads the entry for the first time) of a list that fails verification
 var c12cells = []c12cell{{"first", "accepted"}, {"first", "rejected"}, {"refresh", "accepted"}, {"refresh", "rejected"}, {"refresh", "swapfault"}, {"first-by-updater", "rejected"}}
+
 // "st-switch": the k-th storage operation issued by the store switch itself (LevelDbStore.Update), with a list of 2500
 // entries: whatever the switch writes, it writes after thousands of operations of streaming
 var c12kinds = []string{"hit", "os", "st", "st-torn", "st-switch"}
